@@ -150,6 +150,9 @@ func (cfg *Config) paramExp(pe *syntax.ParamExp) (string, error) {
 		n := len(elems)
 		switch nodeLit(index) {
 		case "@", "*":
+			if vr.Kind == Associative {
+				n = len(vr.Map)
+			}
 		default:
 			n = utf8.RuneCountInString(str)
 		}
